@@ -3,7 +3,10 @@
 package multicast
 
 import (
+	"net/netip"
+
 	"github.com/talostrading/sonic"
+	"github.com/talostrading/sonic/internal"
 	"github.com/talostrading/sonic/internal/vf"
 	"github.com/talostrading/sonic/internal/vsys/vkernel"
 )
@@ -74,5 +77,164 @@ func VerifC12_PeerSettings() {
 	}
 	p.Close()
 	vf.Assert("close-releases-the-socket", vkernel.OpenCount() == before)
+	vf.Reach("end")
+}
+
+func c12Peer(cfg vkernel.Config) (*sonic.IO, *UDPPeer, int) {
+	vkernel.Reset(vkernel.Config{Batch: 1})
+	ioc := sonic.MustIO()
+	p, err := NewUDPPeer(ioc, "udp", "0.0.0.0:0")
+	vf.Assume(err == nil)
+	vkernel.K.Cfg = cfg
+	return ioc, p, p.NextLayer().RawFd()
+}
+
+// Read path of the multicast peer: one callback per datagram, its length (truncated), the sender,
+// and the data lands in the buffer MOST RECENTLY designated for the pending read.
+func VerifC12_PeerRead() {
+	ioc, p, fd := c12Peer(vkernel.Config{AllowAgain: true, AllowIOErr: true, Batch: 1, MaxWaits: 3})
+	L1 := vf.Len("buffer1")
+	L2 := vf.Len("buffer2")
+	vf.Assume(vf.All(1 <= L1, L1 <= 70000, 1 <= L2, L2 <= 70000))
+	b1, b2 := make([]byte, L1), make([]byte, L2)
+	if vf.Bool("deferred-start") {
+		ioc.Dispatched = sonic.MaxCallbackDispatch
+	}
+	d0 := ioc.Dispatched
+	calls, gotN := 0, 0
+	var gotErr error
+	var from [4]byte
+	port := 0
+	p.AsyncRead(b1, func(err error, n int, ap netip.AddrPort) {
+		calls++
+		gotErr, gotN = err, n
+		if err == nil {
+			from, port = ap.Addr().As4(), int(ap.Port())
+		}
+	})
+	designated := b1
+	if calls == 0 && vf.Bool("redesignate") {
+		p.SetAsyncReadBuffer(b2)
+		designated = b2
+		vf.Reach("redesignated-while-pending")
+	}
+	vf.Unwind(16)
+	for i := 0; i < 2 && calls == 0; i++ {
+		ioc.PollOne()
+	}
+	vf.Assert("at-most-once", calls <= 1)
+	vf.Assert("dispatched-restored", ioc.Dispatched == d0)
+	k := &vkernel.K.FDs[fd]
+	if calls == 1 && gotErr == nil {
+		vf.Reach("datagram")
+		vf.Assert("one-datagram-one-callback", k.Recvs == 1)
+		want := len(k.Delivered)
+		if want > len(designated) {
+			want = len(designated)
+		}
+		vf.Assert("length-is-the-datagram-truncated-to-the-designated-buffer", gotN == want)
+		j := vf.Int("j")
+		vf.Assume(vf.All(0 <= j, j < gotN))
+		vf.Assert("bytes-are-in-the-most-recently-designated-buffer", designated[j] == k.Delivered[j])
+		vf.Assert("sender-ip-and-port", vf.All(from[0] == k.LastFrom[0], from[1] == k.LastFrom[1], from[2] == k.LastFrom[2], from[3] == k.LastFrom[3], port == k.LastPort))
+	}
+	if calls == 0 {
+		vf.Assert("no-datagram-consumed-without-a-callback", k.Recvs == 0)
+	}
+	vf.Reach("end")
+}
+
+func VerifC12_PeerWrite() {
+	ioc, p, fd := c12Peer(vkernel.Config{AllowAgain: true, AllowIOErr: true, Batch: 1, MaxWaits: 3})
+	L := vf.Len("datagram")
+	vf.Assume(vf.All(1 <= L, L <= 65507))
+	b := vf.Bytes("payload", L)
+	var a4 [4]byte
+	a4[0], a4[1], a4[2], a4[3] = vf.Uint8("a"), vf.Uint8("b"), vf.Uint8("c"), vf.Uint8("d")
+	dport := vf.Uint16("port")
+	to := netip.AddrPortFrom(netip.AddrFrom4(a4), dport)
+	if vf.Bool("deferred-start") {
+		ioc.Dispatched = sonic.MaxCallbackDispatch
+	}
+	d0 := ioc.Dispatched
+	calls, gotN := 0, 0
+	var gotErr error
+	p.AsyncWrite(b, to, func(err error, n int) { calls++; gotErr, gotN = err, n })
+	vf.Unwind(16)
+	for i := 0; i < 2 && calls == 0; i++ {
+		ioc.PollOne()
+	}
+	vf.Assert("at-most-once", calls <= 1)
+	vf.Assert("dispatched-restored", ioc.Dispatched == d0)
+	k := &vkernel.K.FDs[fd]
+	if calls == 1 && gotErr == nil {
+		vf.Reach("sent")
+		vf.Assert("exactly-one-datagram-emitted", k.Sent == 1)
+		vf.Assert("reported-length", gotN == L)
+		vf.Assert("datagram-has-the-callers-length", len(k.Accepted) == L)
+		j := vf.Int("j")
+		vf.Assume(vf.All(0 <= j, j < L))
+		vf.Assert("datagram-has-the-callers-bytes", k.Accepted[j] == b[j])
+		vf.Assert("datagram-goes-to-the-given-destination", vf.All(k.SentTo[0] == a4[0], k.SentTo[1] == a4[1], k.SentTo[2] == a4[2], k.SentTo[3] == a4[3], k.SentPort == int(dport)))
+	}
+	if calls == 0 || gotErr != nil {
+		vf.Assert("nothing-emitted-without-success", k.Sent == 0)
+	}
+	vf.Reach("end")
+}
+
+// C14, fifth copy of the dispatch-limit logic (UDPPeer.AsyncRead / AsyncWrite) from an arbitrary depth.
+func VerifC14_Peer() {
+	ioc, p, fd := c12Peer(vkernel.Config{Batch: 1, MaxWaits: 2})
+	d := vf.Int("d")
+	vf.Assume(vf.All(0 <= d, d <= sonic.MaxCallbackDispatch))
+	ioc.Dispatched = d
+	depth, under := d, 0
+	write := vf.Bool("write")
+	calls := 0
+	var gotErr error
+	enter := func() {
+		depth++
+		vf.Assert("nesting-within-limit", depth <= sonic.MaxCallbackDispatch+1)
+		vf.Assert("dispatched-counts-the-stack", ioc.Dispatched == depth-under)
+		vf.Assert("dispatched-within-limit", ioc.Dispatched <= sonic.MaxCallbackDispatch)
+	}
+	if write {
+		p.AsyncWrite(make([]byte, 3), netip.AddrPortFrom(netip.AddrFrom4([4]byte{10, 0, 0, 1}), 9), func(err error, n int) {
+			enter()
+			calls++
+			gotErr = err
+			depth--
+		})
+	} else {
+		p.AsyncRead(make([]byte, 8), func(err error, n int, ap netip.AddrPort) {
+			enter()
+			calls++
+			gotErr = err
+			depth--
+		})
+	}
+	vf.Assert("depth-accounting-restored", vf.All(ioc.Dispatched == d, depth == d))
+	if d < sonic.MaxCallbackDispatch {
+		vf.Reach("inline")
+		vf.Assert("inline-completes-synchronously", vf.All(calls == 1, gotErr == nil))
+		return
+	}
+	vf.Reach("at-limit")
+	vf.Assert("deferred-not-run-synchronously", calls == 0)
+	bit := uint32(vkernel.EPOLLIN)
+	if write {
+		bit = vkernel.EPOLLOUT
+	}
+	reg, ev := vkernel.Registered(internal.VerifPollerFd(sonic.VerifPoller(ioc)), fd)
+	vf.Assert("deferred-is-armed", vf.All(reg, ev&bit != 0))
+	ioc.Dispatched, depth, under = 0, 0, 1
+	n, err := ioc.PollOne()
+	under = 0
+	if vkernel.K.Log.LastN == 1 && vkernel.K.Log.LastBatch[0] == fd {
+		vf.Reach("dispatched-by-poller")
+		vf.Assert("deferred-completes-with-the-inline-result", vf.All(n == 1, err == nil, calls == 1, gotErr == nil))
+	}
+	vf.Assert("depth-zero-after-unwinding", vf.All(ioc.Dispatched == 0, depth == 0))
 	vf.Reach("end")
 }
